@@ -143,6 +143,7 @@ Definition mapping_order (l : list pair) : list pair := fold_right insert_pair [
 
 (* ValuesToMapping *)
 Definition values_to_mapping (v : list pair) : res mapping :=
+  if (MAX_PAIRS <? length v)%nat then Err else
   let s := mapping_order v in
   let base := fold_left (fun acc p => acc + Z.of_nat (length (fst p)) + Z.of_nat (length (snd p))) s (2 * Z.of_nat (length s)) in
   if base >? c_data_MAX_MAPPING_DATA_SIZE then Err
